@@ -336,3 +336,12 @@ Proof.
   apply exec_ok in Ex. cbn [exec_spec] in Ex. destruct Ex as (_&_&o'&Ho'&_&[[_ ->]|(_&_&en&_&_&->)]);
     (replace (owner_of fl c (set_appr _ _) id) with (owner_of fl c (run fl c (init now0) cs1) id) by (destruct fl; reflexivity)); exact Ho.
 Qed.
+
+Theorem owner_changes_only_by_move_or_mint fl c now0 cs1 cs2 id :
+  forallb (fun co => negb (writes id co)) (outcomes fl c (run fl c (init now0) cs1) cs2) = true ->
+  owner_of fl c (run fl c (init now0) (cs1 ++ cs2)) id = owner_of fl c (run fl c (init now0) cs1) id.
+Proof.
+  intros H. rewrite run_app.
+  pose proof (run_sg_sim fl c cs1 _ _ (sim_init fl now0)) as Hs. rewrite run_sg_fst in Hs.
+  exact (owner_stable fl c id cs2 _ _ Hs H).
+Qed.
